@@ -49,19 +49,19 @@ def close(a, b, tol):
 def same(obs, exp, tol=0.0):
     if 'exc' in obs:
         return False
-    return obs['index'] == exp['index'] and close(obs['rows'], exp['rows'], tol)
+    return close([obs['index']], [exp['index']], tol) and close(obs['rows'], exp['rows'], tol)
 
 
-def judge(ctx, case, variant, obs, what):
+def judge(ctx, case, variant, obs, what, tol=0.0):
     """Compare with M (either admissible second-stage semantics), then with P(Known)."""
     expM = linmodel.expected_rows(case, 'expM')
     expA = linmodel.expected_rows(case, 'expA')
-    if same(obs, expM) or same(obs, expA):
+    if same(obs, expM, tol) or same(obs, expA, tol):
         return 'pass'
     expP = linmodel.expected_rows(case, 'expP')
     devs = case.get('dev') or []
     rec = dict(model=case['m'], cfg=case['cfg'], variant=variant)
-    if devs and same(obs, expP):
+    if devs and same(obs, expP, tol):
         # observed equals what the deviating model predicts: a known finding if every fired deviation is listed
         fids = [FINDING_OF[d] for d in devs]
         if all(ctx.open_finding(f) for f in fids):
